@@ -40,7 +40,9 @@ class ModuleImports:
                     )
                 except exceptions.AttributeNotFoundError:
                     return []
-            assert isinstance(name, pynamesdef.AssignedName)
+            if not isinstance(name, pynamesdef.AssignedName):
+                # `__all__` is not a plain assignment (e.g. a def): nothing to infer
+                return []
             return name.assignments
 
         result = set()
